@@ -24,7 +24,6 @@ import (
 
 type Locker = realsync.Locker
 type Once = realsync.Once
-type Pool = realsync.Pool
 type Map = realsync.Map
 
 func OnceFunc(f func()) func() { return realsync.OnceFunc(f) }
@@ -1067,3 +1066,69 @@ func (w *Weighted) Release(n int64) {
 // RaceAcquire / RaceRelease expose the race-detector edges to the store double.
 func RaceAcquire(p *uint64) { raceAcquire(unsafe.Pointer(p)) }
 func RaceRelease(p *uint64) { raceRelease(unsafe.Pointer(p)) }
+
+// Pool replaces sync.Pool. Under exploration it is a LIFO free list whose Get and Put are scheduling
+// points: any pool may hand back the object that was put last, and the window between a Put and the
+// last use of the object by the thread that put it is exactly what a pooled-buffer defect needs. Put
+// to Get of one object is a happens-before edge (as in the real pool); nothing else is.
+type Pool struct {
+	New  func() any
+	real realsync.Pool
+	free []pooled
+}
+
+type pooled struct {
+	v   any
+	tok *uint64
+}
+
+//go:norace
+func (p *Pool) pop() (pooled, bool) {
+	if n := len(p.free); n > 0 {
+		x := p.free[n-1]
+		p.free = p.free[:n-1]
+		return x, true
+	}
+	return pooled{}, false
+}
+
+//go:norace
+func (p *Pool) push(x pooled) { p.free = append(p.free, x) }
+
+func (p *Pool) Get() any {
+	if current() == nil {
+		if v := p.real.Get(); v != nil {
+			return v
+		}
+		if p.New != nil {
+			return p.New()
+		}
+		return nil
+	}
+	call(req{op: opAccess, label: "sync.Pool", write: true})
+	if x, ok := p.pop(); ok {
+		RaceAcquire(x.tok)
+		return x.v
+	}
+	if p.New != nil {
+		return p.New()
+	}
+	return nil
+}
+
+func (p *Pool) Put(v any) {
+	if v == nil {
+		return
+	}
+	if current() == nil {
+		p.real.Put(v)
+		return
+	}
+	call(req{op: opAccess, label: "sync.Pool", write: true})
+	tok := new(uint64)
+	RaceRelease(tok)
+	p.push(pooled{v, tok})
+	// and a point after the object became available: what the caller does next with the object it
+	// has just given away (nothing, if it is correct) can be overtaken by the next owner
+	call(req{op: opAccess, label: "sync.Pool", write: true})
+}
